@@ -30,10 +30,30 @@ class NeedDecision(Exception):
 
 
 class PyRaise(Exception):
+    args_known = None
+
     def __init__(self, exc_type: str, node=None, msg=""):
         self.exc_type = exc_type
         self.node = node
         self.msg = msg
+
+
+_EXC_PARENTS = {"KeyError": "LookupError", "IndexError": "LookupError", "LookupError": "Exception", "ZeroDivisionError": "ArithmeticError",
+                "OverflowError": "ArithmeticError", "ArithmeticError": "Exception", "FileNotFoundError": "OSError", "OSError": "Exception",
+                "UnicodeDecodeError": "ValueError", "UnicodeEncodeError": "ValueError", "RecursionError": "RuntimeError", "NotImplementedError": "RuntimeError",
+                "StopIteration": "Exception", "ImportError": "Exception", "ModuleNotFoundError": "ImportError", "Exception": "BaseException"}
+
+
+def _exc_covers(handler: str, raised: str) -> bool:
+    """Does `except handler` catch an exception of type `raised`?  Unknown (library / repository) exception types derive from Exception."""
+    seen = 0
+    cur = raised
+    while cur is not None and seen < 10:
+        if cur == handler:
+            return True
+        cur = _EXC_PARENTS.get(cur, "Exception" if cur not in ("BaseException", "KeyboardInterrupt", "SystemExit", "GeneratorExit") and cur != "Exception" else ("BaseException" if cur == "Exception" else None))
+        seen += 1
+    return False
 
 
 class _Return(Exception):
@@ -179,6 +199,12 @@ class Closure:
         return f"<fn {self.mod.name}.{self.name}>"
 
 
+def _with_defaults(clo: "Closure", pos, kwonly):
+    clo.default_values = list(pos)
+    clo.kw_default_values = list(kwonly)
+    return clo
+
+
 class Bound:
     def __init__(self, selfv, fn: Closure):
         self.selfv = selfv
@@ -200,8 +226,8 @@ class SymSeq:
     """A sequence of unknown length (e.g. `args` of a callback in a length-agnostic query). Unused for now."""
 
 
-MATH_FUNCS = {"cos", "sin", "tan", "radians", "sqrt", "hypot", "atan2", "fabs", "ceil", "isfinite", "degrees", "floor", "isclose"}
-MATH_CONSTS = {"pi": RF.sym("pi")}
+MATH_FUNCS = {"cos", "sin", "tan", "radians", "sqrt", "hypot", "atan2", "fabs", "ceil", "isfinite", "degrees", "floor", "isclose", "trunc", "copysign", "acos", "asin", "atan", "exp", "log", "isnan", "isinf"}
+MATH_CONSTS = {"pi": RF.sym("pi"), "tau": RF.sym("pi") * RF.of(2), "e": RF.sym("math_e")}
 
 
 def is_num(x):
@@ -381,6 +407,8 @@ class Interp:
             return int(getattr(_re_mod, attr))
         if module == "collections" and attr == "deque":
             return PyCallable(lambda it, a, k: list(it.iterate(a[0])) if a else [])
+        if module == "operator" and attr in ("add", "sub", "mul", "truediv", "neg", "itemgetter", "attrgetter", "eq", "ne", "lt", "le", "gt", "ge"):
+            return Builtin("operator." + attr)
         if module == "itertools" and attr == "count":
             return PyCallable(lambda it, a, k: range(a[0] if a else 0, (a[0] if a else 0) + (1 << 16), a[1] if len(a) > 1 else 1))
         if module == "collections" and attr == "defaultdict":
@@ -399,7 +427,7 @@ class Interp:
                 return MATH_CONSTS[attr]
         if module == "functools" and attr == "reduce":
             return Builtin("reduce")
-        if module == "itertools" and attr in ("zip_longest", "islice", "chain"):
+        if module == "itertools" and attr in ("zip_longest", "islice", "chain", "product", "accumulate", "repeat", "pairwise"):
             return Builtin("itertools." + attr)
         if module == "sys" and attr == "float_info":
             return Rec(ClassRef("sys", "float_info"), {"epsilon": RF.sym("EPSILON")})
@@ -438,6 +466,14 @@ class Interp:
                     "Exception", "NotImplemented", "ZeroDivisionError", "StopIteration"):
             return Builtin(name)
         raise Undecided(f"unresolved name {name}")
+
+    def _lookup_opt(self, name, env):
+        e = env
+        while e is not None:
+            if name in e:
+                return e[name]
+            e = e.get("__parent__")
+        return None
 
     def _mod(self, env) -> Module:
         e = env
@@ -662,7 +698,8 @@ class Interp:
             elif p in kwargs:
                 env[p] = kwargs.pop(p)
             elif defaults[i] is not None:
-                env[p] = self.eval(defaults[i], {"__mod__": clo.mod, "__parent__": clo.env})
+                dv = getattr(clo, "default_values", None)
+                env[p] = dv[i - (len(params) - len(a.defaults))] if dv is not None else self.eval(defaults[i], {"__mod__": clo.mod, "__parent__": clo.env})
             else:
                 raise PyRaise("TypeError", node, f"{clo.name}() missing argument {p}")
         extra = args[len(params):]
@@ -670,11 +707,12 @@ class Interp:
             env[a.vararg.arg] = tuple(extra)
         elif extra:
             raise PyRaise("TypeError", node, f"{clo.name}() takes {len(params)} positional arguments but {len(args)} were given")
-        for p, d in zip(a.kwonlyargs, a.kw_defaults):
+        for kwi, (p, d) in enumerate(zip(a.kwonlyargs, a.kw_defaults)):
             if p.arg in kwargs:
                 env[p.arg] = kwargs.pop(p.arg)
             elif d is not None:
-                env[p.arg] = self.eval(d, {"__mod__": clo.mod})
+                kdv = getattr(clo, "kw_default_values", None)
+                env[p.arg] = kdv[kwi] if kdv is not None else self.eval(d, {"__mod__": clo.mod, "__parent__": clo.env})
             else:
                 raise PyRaise("TypeError", node, f"missing kw-only {p.arg}")
         if a.kwarg:
@@ -757,7 +795,24 @@ class Interp:
         elif isinstance(st, ast.Return):
             raise _Return(self.eval(st.value, env) if st.value is not None else None)
         elif isinstance(st, ast.Raise):
-            raise PyRaise(_exc_name(st.exc), st)
+            if st.exc is None:
+                cur = self._lookup_opt("__exc__", env)
+                if cur is None:
+                    raise PyRaise("RuntimeError", st, "No active exception to reraise")
+                raise cur
+            if isinstance(st.exc, ast.Name):
+                held = self._lookup_opt(st.exc.id, env)
+                if isinstance(held, ExcVal):
+                    raise held.exc
+            err = PyRaise(_exc_name(st.exc), st)
+            if isinstance(st.exc, ast.Call) and not st.exc.keywords:
+                try:
+                    err.args_known = tuple(self.eval(x, env) for x in st.exc.args)
+                    if len(err.args_known) == 1 and isinstance(err.args_known[0], str):
+                        err.msg = err.args_known[0]
+                except (Undecided, NeedDecision, PyRaise):
+                    err.args_known = None
+            raise err
         elif isinstance(st, ast.Assert):
             c = self.eval(st.test, env)
             if isinstance(c, (Cond, RF)):
@@ -771,7 +826,11 @@ class Interp:
             elif not c:
                 raise PyRaise("AssertionError", st)
         elif isinstance(st, ast.FunctionDef):
-            env[st.name] = Closure(self._mod(env), st, env)
+            clo = Closure(self._mod(env), st, env)
+            # default values are evaluated when the def statement runs
+            if st.args.defaults or any(d is not None for d in st.args.kw_defaults):
+                clo = _with_defaults(clo, [self.eval(d, env) for d in st.args.defaults], [None if d is None else self.eval(d, env) for d in st.args.kw_defaults])
+            env[st.name] = clo
         elif isinstance(st, ast.Pass):
             pass
         elif isinstance(st, ast.Delete):
@@ -794,28 +853,91 @@ class Interp:
             raise _Continue()
         elif isinstance(st, ast.Try):
             try:
-                self.exec_block(st.body, env)
-            except PyRaise as e:
-                for h in st.handlers:
-                    names = _handler_names(h)
-                    if not names or e.exc_type in names or "Exception" in names or "BaseException" in names:
-                        self.exec_block(h.body, env)
-                        break
+                try:
+                    self.exec_block(st.body, env)
+                except PyRaise as e:
+                    for h in st.handlers:
+                        names = _handler_names(h)
+                        if not names or any(_exc_covers(nm, e.exc_type) for nm in names):
+                            saved = env.get("__exc__", _MISSING)
+                            env["__exc__"] = e
+                            if h.name:
+                                env[h.name] = ExcVal(e)
+                            try:
+                                self.exec_block(h.body, env)
+                            finally:
+                                if h.name:
+                                    env.pop(h.name, None)
+                                if isinstance(saved, _Missing):
+                                    env.pop("__exc__", None)
+                                else:
+                                    env["__exc__"] = saved
+                            break
+                    else:
+                        raise
                 else:
-                    raise
-            else:
-                self.exec_block(st.orelse, env)
-            finally:
-                pass
+                    self.exec_block(st.orelse, env)
+            except (PyRaise, _Return, _Break, _Continue):
+                # the finally clause runs on the way out as well (a return / raise inside it replaces the pending one)
+                self.exec_block(st.finalbody, env)
+                raise
             self.exec_block(st.finalbody, env)
-        elif isinstance(st, (ast.Import, ast.ImportFrom)):
-            pass
-        elif isinstance(st, (ast.Global, ast.Nonlocal)):
-            env.setdefault("__global_names__", set()).update(st.names) if isinstance(st, ast.Global) else None
+        elif isinstance(st, ast.Import):
+            if "__func__" in env or "__parent__" in env:
+                for al in st.names:
+                    top = al.name if al.asname else al.name.split(".")[0]
+                    tm = self.repo.resolve_module(top)
+                    env[al.asname or top] = ModRef(tm.name) if tm else ModRef(top, True)
+        elif isinstance(st, ast.ImportFrom):
+            if "__func__" in env or "__parent__" in env:
+                m = ("." * (st.level or 0)) + (st.module or "")
+                for al in st.names:
+                    tm = self.repo.resolve_module(m) or self.repo.resolve_module((st.module or "").split(".")[-1] if st.module else al.name)
+                    if st.module is None or (st.module in ("picosvg",) and al.name in self.repo.modules):
+                        tm2 = self.repo.resolve_module(al.name)
+                        env[al.asname or al.name] = ModRef(tm2.name) if tm2 else ModRef(al.name, True)
+                    elif tm is not None:
+                        r = self.module_ns(tm, al.name)
+                        if isinstance(r, _Missing):
+                            raise PyRaise("ImportError", st, f"cannot import name {al.name}")
+                        env[al.asname or al.name] = r
+                    else:
+                        env[al.asname or al.name] = self._external(st.module, al.name)
+        elif isinstance(st, ast.Global):
+            env.setdefault("__global_names__", set()).update(st.names)
+        elif isinstance(st, ast.Nonlocal):
+            env.setdefault("__nonlocal_names__", set()).update(st.names)
+        elif isinstance(st, ast.With):
+            # context managers whose semantics is known: contextlib.suppress(E..) and contextlib.nullcontext()
+            if len(st.items) != 1 or st.items[0].optional_vars is not None and not isinstance(st.items[0].optional_vars, ast.Name):
+                raise Undecided("with statement: form not interpreted")
+            ce = st.items[0].context_expr
+            cname = call_name_of(ce)
+            if cname in ("contextlib.suppress", "suppress"):
+                names = [_exc_name(x) for x in ce.args]
+                try:
+                    self.exec_block(st.body, env)
+                except PyRaise as e:
+                    if not any(_exc_covers(nm, e.exc_type) for nm in names):
+                        raise
+            elif cname in ("contextlib.nullcontext", "nullcontext"):
+                if st.items[0].optional_vars is not None:
+                    env[st.items[0].optional_vars.id] = self.eval(ce.args[0], env) if ce.args else None
+                self.exec_block(st.body, env)
+            else:
+                raise Undecided(f"with statement over {unparse(ce)[:40]}: context manager not modelled")
         else:
             raise Undecided(f"statement {type(st).__name__} not interpreted")
 
     def assign(self, target, v, env):
+        if isinstance(target, ast.Name) and target.id in env.get("__nonlocal_names__", ()):
+            e = env.get("__parent__")
+            while e is not None:
+                if target.id in e:
+                    e[target.id] = v
+                    return
+                e = e.get("__parent__")
+            raise Undecided(f"nonlocal {target.id}: no binding found")
         if isinstance(target, ast.Name):
             if target.id in env.get("__global_names__", ()):
                 # module-level state written by a function: lives as long as the process
@@ -939,6 +1061,15 @@ class Interp:
                     parts.append(f"{{{x!r}{spec}}}")
         return SymStr("".join(parts)) if symbolic else "".join(parts)
 
+    def e_NamedExpr(self, n, env):
+        v = self.eval(n.value, env)
+        # the target of := is bound in the enclosing function scope, also from inside a comprehension
+        e = env
+        while e is not None and "__func__" not in e and "__mod__" not in e and e.get("__parent__") is not None:
+            e = e["__parent__"]
+        (e if e is not None else env)[n.target.id] = v
+        return v
+
     def e_Lambda(self, n, env):
         return Closure(self._mod(env), n, env)
 
@@ -1020,12 +1151,13 @@ class Interp:
             return l * r
         if isinstance(op, ast.Mod) and isinstance(l, str):
             vals = r if isinstance(r, tuple) else (r,)
-            if all(isinstance(x, (int, str)) and not isinstance(x, bool) for x in vals):
+            vals = tuple(float(x) if isinstance(x, Fraction) else x for x in vals)
+            if all(isinstance(x, (int, str, float)) and not isinstance(x, bool) for x in vals):
                 try:
-                    return l % (r if isinstance(r, tuple) else (r,))
+                    return l % vals
                 except (TypeError, ValueError):
                     raise PyRaise("TypeError", node, "bad % format")
-            return l  # string formatting over symbolic values: keep template
+            return SymStr(l + " % " + repr(vals))  # string formatting over symbolic values
         if not (is_num(l) or isinstance(l, bool)) or not (is_num(r) or isinstance(r, bool)):
             raise Undecided(f"arithmetic on {type(l).__name__}, {type(r).__name__}")
         if isinstance(l, int) and isinstance(r, int) and not isinstance(op, ast.Div):
@@ -1147,7 +1279,12 @@ class Interp:
             c = Cond(sym, (simplify_num(l), simplify_num(r)))
             d = self._decide_cond(c)
             return c if d is None else d
-        if isinstance(l, (str, tuple)) and type(l) is type(r) and not _has_sym(l) and not _has_sym(r):
+        if isinstance(l, (str, tuple, list)) and type(l) is type(r) and not _has_sym(l) and not _has_sym(r):
+            try:
+                return {"<": l < r, "<=": l <= r, ">": l > r, ">=": l >= r}[sym]
+            except TypeError:
+                raise Undecided("ordering comparison of sequences with mixed element types")
+        if isinstance(l, (set, frozenset)) and isinstance(r, (set, frozenset)):
             return {"<": l < r, "<=": l <= r, ">": l > r, ">=": l >= r}[sym]
         raise Undecided(f"ordering comparison of {l!r} and {r!r}")
 
@@ -1278,7 +1415,7 @@ class Interp:
                 raise Undecided(f"module {base.name} has no {attr}")
             return r
         if isinstance(base, (str, bytes)):
-            return PyCallable(lambda it, a, k, b=base, at=attr: _str_method(b, at, [list(x.pull()) if isinstance(x, LazyGen) else x for x in a]))
+            return PyCallable(lambda it, a, k, b=base, at=attr: _str_method(b, at, [list(x.pull()) if isinstance(x, LazyGen) else x for x in a], k))
         if isinstance(base, SymStr):
             def _m(it, a, k, b=base, at=attr):
                 call = f"{b.text}.{at}({', '.join(map(repr, a))})"
@@ -1299,6 +1436,8 @@ class Interp:
                 return PyCallable(lambda it, a, k, b=base: _is_integer(b))
             if attr in ("real",):
                 return base
+        if isinstance(base, Builtin) and attr in ("__name__", "__qualname__"):
+            return base.name.split(".")[-1]
         if isinstance(base, Builtin):
             return Builtin(base.name + "." + attr)
         if isinstance(base, (Bound, Closure)) and attr in ("cache_clear", "cache_info"):
@@ -1308,6 +1447,10 @@ class Interp:
                 it.__dict__.setdefault("memo", {}).pop(id(node), None)
                 return None
             return PyCallable(_clear)
+        if base is None or isinstance(base, (int, bool)) and attr not in ("real", "imag", "numerator", "denominator", "bit_length", "is_integer"):
+            raise PyRaise("AttributeError", node, f"'{type(base).__name__}' object has no attribute '{attr}'")
+        if isinstance(base, Builtin) is False and isinstance(base, int) and attr in ("real", "numerator"):
+            return base
         raise Undecided(f"attribute {attr} of {type(base).__name__}")
 
     def container_method(self, b, at, a, k):
@@ -1338,6 +1481,20 @@ class Interp:
                 return list(b)
             if at == "reverse":
                 b.reverse(); return None
+            if at == "remove":
+                for i, x in enumerate(b):
+                    if self.equal(x, a[0]) is True:
+                        del b[i]
+                        return None
+                raise PyRaise("ValueError")
+            if at == "count":
+                return sum(1 for x in b if self.equal(x, a[0]) is True)
+            if at == "clear":
+                b.clear(); return None
+            if at == "sort":
+                new = self.call_builtin("sorted", [list(b)], dict(k))
+                b[:] = new
+                return None
         if isinstance(b, tuple):
             if at == "index":
                 for i, x in enumerate(b):
@@ -1357,7 +1514,21 @@ class Interp:
             if at == "items":
                 return [(_unh(kk), vv) for kk, vv in b.items() if kk != "__default_factory__"]
             if at == "update":
-                b.update(a[0]); return None
+                if a:
+                    src = a[0]
+                    if isinstance(src, dict):
+                        b.update(src)
+                    else:
+                        for kk, vv in self.iterate(src):
+                            b[_h(kk)] = vv
+                for kk, vv in k.items():
+                    b[kk] = vv
+                return None
+            if at == "popitem":
+                if not b:
+                    raise PyRaise("KeyError")
+                kk, vv = b.popitem()
+                return (_unh(kk), vv)
             if at == "pop":
                 if _h(a[0]) in b:
                     return b.pop(_h(a[0]))
@@ -1598,12 +1769,17 @@ class Interp:
                 if to_rf(x).equals(to_rf(y)):
                     return True
                 return Cond("isclose", (x, y))
-            if fn == "ceil":
+            if fn in ("ceil", "floor", "trunc"):
                 x = simplify_num(a[0])
                 if isinstance(x, RF):
-                    return fn_atom("ceil", x)
+                    return fn_atom(fn, x)
                 import math
-                return math.ceil(x)
+                return getattr(math, fn)(x)
+            if fn == "copysign":
+                x, y = simplify_num(a[0]), simplify_num(a[1])
+                if not isinstance(x, RF) and not isinstance(y, RF):
+                    return abs(x) if y >= 0 else -abs(x)
+                return fn_atom("copysign", x, y)
             return simplify_num(fn_atom(fn, *a))
         if name == "len":
             v = a[0]
@@ -1621,6 +1797,41 @@ class Interp:
         if name == "itertools.zip_longest":
             import itertools
             return list(itertools.zip_longest(*[self.iterate(x) for x in a], fillvalue=kwargs.get("fillvalue")))
+        if name.startswith("operator.") and name != "operator.matmul":
+            op = name[9:]
+            binops = {"add": ast.Add, "sub": ast.Sub, "mul": ast.Mult, "truediv": ast.Div}
+            if op in binops:
+                return self.binop(binops[op](), a[0], a[1])
+            if op == "neg":
+                return self.binop(ast.Sub(), 0, a[0])
+            cmps = {"eq": ast.Eq, "ne": ast.NotEq, "lt": ast.Lt, "le": ast.LtE, "gt": ast.Gt, "ge": ast.GtE}
+            if op in cmps:
+                return self.eval(ast.Compare(left=ast.Name(id="__a", ctx=ast.Load()), ops=[cmps[op]()], comparators=[ast.Name(id="__b", ctx=ast.Load())]), {"__a": a[0], "__b": a[1]})
+            if op == "itemgetter":
+                keys = list(a)
+                return PyCallable(lambda i, aa, kk: i.eval(ast.Subscript(value=ast.Name(id="__o", ctx=ast.Load()), slice=ast.Name(id="__k", ctx=ast.Load()), ctx=ast.Load()), {"__o": aa[0], "__k": keys[0]}) if len(keys) == 1
+                                  else tuple(i.eval(ast.Subscript(value=ast.Name(id="__o", ctx=ast.Load()), slice=ast.Name(id="__k", ctx=ast.Load()), ctx=ast.Load()), {"__o": aa[0], "__k": kx}) for kx in keys))
+            if op == "attrgetter" and len(a) == 1 and isinstance(a[0], str) and "." not in a[0]:
+                nm = a[0]
+                return PyCallable(lambda i, aa, kk: i.eval(ast.Attribute(value=ast.Name(id="__o", ctx=ast.Load()), attr=nm, ctx=ast.Load()), {"__o": aa[0]}))
+            raise Undecided(f"{name} not interpreted")
+        if name == "itertools.product":
+            import itertools
+            return list(itertools.product(*[self.iterate(x) for x in a], repeat=_idx(kwargs.get("repeat", 1))))
+        if name == "itertools.pairwise":
+            items = self.iterate(a[0])
+            return list(zip(items, items[1:]))
+        if name == "itertools.repeat":
+            if len(a) < 2:
+                raise Undecided("itertools.repeat without a count")
+            return [a[0]] * _idx(a[1])
+        if name == "itertools.accumulate":
+            items = self.iterate(a[0])
+            out, tot = [], None
+            for i, x in enumerate(items):
+                tot = x if i == 0 else (self.call(a[1], [tot, x], {}) if len(a) > 1 else self.binop(ast.Add(), tot, x))
+                out.append(tot)
+            return out
         if name == "itertools.chain":
             out = []
             for x in a:
@@ -1664,13 +1875,35 @@ class Interp:
             return [x for x in items if self.decide(self.call(a[0], [x], {}))]
         if name == "enumerate":
             return list(enumerate(self.iterate(a[0]), *(a[1:])))
+        if name == "callable":
+            return isinstance(a[0], (Closure, Builtin, PyCallable, ClassRef)) or (isinstance(a[0], Rec) and bool(self.find_method(a[0].cls, "__call__")))
+        if name == "repr":
+            if isinstance(a[0], (str, int, bool)) or a[0] is None:
+                return repr(a[0])
+            if isinstance(a[0], (float, Fraction)):
+                return repr(float(a[0]))
+            return SymStr(f"{{{a[0]!r}!r}}")
+        if name == "dict.fromkeys":
+            return {_h(x): (a[1] if len(a) > 1 else None) for x in self.iterate(a[0])}
+        if name == "divmod":
+            if isinstance(a[0], int) and isinstance(a[1], int):
+                if a[1] == 0:
+                    raise PyRaise("ZeroDivisionError", node, "integer division or modulo by zero")
+                return divmod(a[0], a[1])
+            raise Undecided("divmod on non-integers")
         if name == "reversed":
             return list(reversed(self.iterate(a[0])))
         if name == "sorted":
-            items = self.iterate(a[0])
-            if _has_sym(items):
+            items = list(self.iterate(a[0]))
+            keyf = kwargs.get("key")
+            keys = [self.call(keyf, [x], {}) for x in items] if keyf is not None else items
+            if _has_sym(keys):
                 raise Undecided("sorted on symbolic")
-            return sorted(items)
+            try:
+                order = sorted(range(len(items)), key=lambda i: keys[i], reverse=bool(kwargs.get("reverse", False)))
+            except TypeError:
+                raise Undecided("sorted: keys not comparable in the evaluator")
+            return [items[i] for i in order]
         if name == "list":
             return list(self.iterate(a[0])) if a else []
         if name == "tuple":
@@ -1684,10 +1917,24 @@ class Interp:
             d.update(kwargs)
             return d
         if name in ("min", "max"):
-            items = self.iterate(a[0]) if len(a) == 1 else a
+            items = list(self.iterate(a[0])) if len(a) == 1 else list(a)
             if any(isinstance(x, Unknown) for x in items):
                 return Unknown("min/max of unknown")
-            return simplify_num(fn_atom(name, *items))
+            if not items:
+                if "default" in kwargs:
+                    return kwargs["default"]
+                raise PyRaise("ValueError", node, f"{name}() arg is an empty sequence")
+            keyf = kwargs.get("key")
+            keys = [self.call(keyf, [x], {}) for x in items] if keyf is not None else items
+            if keyf is None and all(is_num(x) for x in items):
+                return simplify_num(fn_atom(name, *items))
+            if _has_sym(keys) or any(isinstance(x, Unknown) for x in keys):
+                raise Undecided(f"{name} over symbolic keys")
+            try:
+                pick = (min if name == "min" else max)(range(len(items)), key=lambda i: keys[i])
+            except TypeError:
+                raise Undecided(f"{name}: keys not comparable in the evaluator")
+            return items[pick]
         if name == "abs":
             if isinstance(a[0], Unknown):
                 return a[0]
@@ -1717,6 +1964,8 @@ class Interp:
                         return float(x)
                     except ValueError:
                         raise PyRaise("ValueError", node)
+            if x is None or isinstance(x, (list, tuple, dict, set)):
+                raise PyRaise("TypeError", node, "float() argument must be a string or a real number")
             return x
         if name in ("int", "float", "str", "bool") and not a:
             return {"int": 0, "float": 0.0, "str": "", "bool": False}[name]
@@ -1726,12 +1975,23 @@ class Interp:
                 return fn_atom("int", x)
             if isinstance(x, Unknown):
                 return x
+            if x is None or isinstance(x, (list, tuple, dict, set)):
+                raise PyRaise("TypeError", node, "int() argument must be a string or a number")
+            if not isinstance(x, (str, int, float, Fraction, bool)):
+                raise Undecided(f"int() of {type(x).__name__}")
             try:
-                return int(x)
+                return int(x, *[_idx(b) for b in a[1:]]) if isinstance(x, str) else int(x)
             except ValueError:
                 raise PyRaise("ValueError", node)
         if name == "str":
-            x = a[0]
+            x = a[0] if a else ""
+            if isinstance(x, ExcVal):
+                if x.exc.args_known is not None:
+                    if len(x.exc.args_known) == 0:
+                        return ""
+                    if len(x.exc.args_known) == 1:
+                        return self.call_builtin("str", [x.exc.args_known[0]], {}) if hasattr(self, "call_builtin") else str(x.exc.args_known[0])
+                return SymStr(f"{{message of {x.exc.exc_type}}}") if not x.exc.msg else x.exc.msg
             if isinstance(x, (str, int)):
                 return str(x)
             if isinstance(x, (float, Fraction)):
@@ -1829,6 +2089,11 @@ class Interp:
         if name == "type":
             if isinstance(a[0], Rec):
                 return a[0].cls
+            if isinstance(a[0], ExcVal):
+                return Builtin(a[0].exc.exc_type)
+            for py, nm in ((bool, "bool"), (int, "int"), (str, "str"), ((float, Fraction), "float"), (list, "list"), (tuple, "tuple"), (dict, "dict"), (set, "set"), (frozenset, "frozenset"), (type(None), "NoneType")):
+                if isinstance(a[0], py):
+                    return Builtin(nm)
             return Builtin("type:" + type(a[0]).__name__)
         raise Undecided(f"builtin {name} not interpreted")
 
@@ -1908,6 +2173,26 @@ class ConstMatch:
         self.m = m
 
 
+def call_name_of(node) -> str:
+    """Dotted name of the callee of a call expression ('' when it is not a plain name/attribute chain)."""
+    if not isinstance(node, ast.Call):
+        return ""
+    try:
+        return unparse(node.func)
+    except Exception:
+        return ""
+
+
+class ExcVal:
+    """The exception object bound by `except E as name`."""
+
+    def __init__(self, exc: "PyRaise"):
+        self.exc = exc
+
+    def __repr__(self):
+        return f"{self.exc.exc_type}({self.exc.msg!r})"
+
+
 class Ext:
     """Extension value supplied by a rule (e.g. path data modelled as a command list instead of a string).
     Subclasses override the sym_* hooks they support."""
@@ -1968,7 +2253,7 @@ class _Missing:
 
 _MISSING = _Missing()
 
-BUILTINS = {"len", "range", "zip", "enumerate", "reversed", "sorted", "list", "tuple", "set", "frozenset", "dict", "min",
+BUILTINS = {"repr", "callable", "divmod", "len", "range", "zip", "enumerate", "reversed", "sorted", "list", "tuple", "set", "frozenset", "dict", "min",
             "max", "abs", "round", "float", "int", "str", "bool", "isinstance", "sum", "any", "all", "getattr", "setattr",
             "hasattr", "print", "pow", "type", "super", "iter", "next", "map", "filter", "bytes", "open", "repr", "divmod", "callable"}
 
@@ -2047,9 +2332,12 @@ def _is_integer(b):
     return True
 
 
-def _str_method(b: str, at: str, a):
+def _str_method(b: str, at: str, a, kw=None):
     if at in ("upper", "lower", "strip", "islower", "isupper", "startswith", "endswith", "replace", "split", "count",
-              "partition", "join", "format", "lstrip", "rstrip", "isdigit", "find", "encode", "decode", "splitlines", "title", "capitalize", "zfill", "rsplit", "index", "rfind"):
+              "partition", "join", "format", "lstrip", "rstrip", "isdigit", "find", "encode", "decode", "splitlines", "title", "capitalize", "zfill", "rsplit", "index", "rfind",
+              "rpartition", "isalpha", "isalnum", "isspace", "isnumeric", "isdecimal", "casefold", "swapcase", "center", "ljust", "rjust", "removeprefix", "removesuffix", "expandtabs", "isidentifier", "istitle"):
+        if kw and (any(_has_sym(x) or isinstance(x, Unknown) for x in kw.values()) or at == "join"):
+            raise Undecided("string method with symbolic argument")
         if any(_has_sym(x) or isinstance(x, Unknown) for x in a) and not (at == "join" and any(hasattr(x, "sym_join") for x in a[0])):
             raise Undecided("string method with symbolic argument")
         if at == "join":
@@ -2058,7 +2346,10 @@ def _str_method(b: str, at: str, a):
                 first = next(x for x in items if hasattr(x, "sym_join"))
                 return first.sym_join(b, items)
             return b.join(items)
-        return getattr(b, at)(*a)
+        try:
+            return getattr(b, at)(*a, **(kw or {}))
+        except (ValueError, IndexError, KeyError, TypeError) as e:
+            raise PyRaise(type(e).__name__, None, str(e))
     raise Undecided(f"str.{at}")
 
 
